@@ -56,6 +56,18 @@ pub fn push_fp(msg: &mut Vec<u8>, correct: bool) {
     msg.extend(tlv(FP, &c.to_be_bytes(), 0));
 }
 
+/// offsets of the attribute headers of a well-formed message
+pub fn attr_offsets(msg: &[u8]) -> Vec<usize> {
+    let mut v = vec![];
+    let mut o = 20;
+    while o + 4 <= msg.len() {
+        v.push(o);
+        let l = u16::from_be_bytes([msg[o + 2], msg[o + 3]]) as usize;
+        o += 4 + (l + 3) / 4 * 4;
+    }
+    v
+}
+
 pub fn set_len(msg: &mut [u8]) {
     let l = msg.len() - 20;
     msg[2] = (l >> 8) as u8;
@@ -501,6 +513,40 @@ pub fn gen_parse(c: &mut Ctx, out: &mut Vec<String>) {
         for _ in 0..2 {
             let k = c.rng.below(msg.len() as u64) as usize;
             out.push(format!("msg op=parse b={}", hex_or_dash(&msg[..k])));
+        }
+        // malformed bodies under a header whose declared length MATCHES the buffer (so the length
+        // check passes and the attribute walk itself has to notice):
+        // (a) the last 1..7 bytes chopped off (missing padding, partly cut last attribute)
+        if msg.len() > 20 {
+            let k = 1 + c.rng.below(7.min(msg.len() as u64 - 20)) as usize;
+            let mut m = msg[..msg.len() - k].to_vec();
+            set_len(&mut m);
+            out.push(format!("msg op=parse b={}{}", hex(&m), c.trace()));
+        }
+        // (b) a final attribute whose value is not a multiple of 4 and whose padding is absent or short
+        {
+            let mut m = msg.clone();
+            let vl = *c.rng.pick(&[1usize, 2, 3, 5, 6, 7, 9]);
+            let have_pad = c.rng.below(((4 - vl % 4) % 4) as u64) as usize;
+            let ty = if c.rng.chance(1, 2) { 0x8022u16 } else { 0x0006 };
+            m.extend_from_slice(&ty.to_be_bytes());
+            m.extend_from_slice(&(vl as u16).to_be_bytes());
+            m.extend(std::iter::repeat(b'x').take(vl + have_pad));
+            set_len(&mut m);
+            out.push(format!("msg op=parse b={}{}", hex(&m), c.trace()));
+        }
+        // (c) one attribute's own length field moved by -4..+4 (header still matching the buffer)
+        {
+            let offs = attr_offsets(&msg);
+            if !offs.is_empty() {
+                let o = *c.rng.pick(&offs);
+                let cur = u16::from_be_bytes([msg[o + 2], msg[o + 3]]) as i64;
+                let d = *c.rng.pick(&[-4i64, -3, -2, -1, 1, 2, 3, 4]);
+                let nl = (cur + d).max(0) as u16;
+                let mut m = msg.clone();
+                m[o + 2..o + 4].copy_from_slice(&nl.to_be_bytes());
+                out.push(format!("msg op=parse b={}{}", hex(&m), c.trace()));
+            }
         }
         for _ in 0..3 {
             let mut m = msg.clone();
